@@ -1,5 +1,32 @@
-"""Tables shared by setup and the individual checks."""
-ALL_COMPONENTS = ['details', 'platform']
-DRIVERS = {
-    'details': (['run_c16'], ['details/Run.vo']),
-}
+"""Discovers what every check module declares: COMPONENTS (translator modules it needs) and
+DRIVERS (component -> (exported run_ functions, make targets))."""
+import glob, importlib, os, re
+
+HERE = os.path.dirname(os.path.abspath(__file__))
+
+
+def modules():
+    mods = []
+    for f in sorted(glob.glob(os.path.join(HERE, 'c[0-9][0-9].py'))):
+        mods.append(importlib.import_module(os.path.basename(f)[:-3]))
+    return mods
+
+
+def all_components():
+    out = []
+    for m in modules():
+        for c in getattr(m, 'COMPONENTS', []):
+            if c not in out:
+                out.append(c)
+    return out
+
+
+def all_drivers():
+    out = {}
+    for m in modules():
+        for k, (fns, targets) in getattr(m, 'DRIVERS', {}).items():
+            if k in out:
+                fns = sorted(set(out[k][0]) | set(fns))
+                targets = sorted(set(out[k][1]) | set(targets))
+            out[k] = (list(fns), list(targets))
+    return out
